@@ -7,7 +7,31 @@ from concurrent.futures import ThreadPoolExecutor
 from harness import core, xdoc
 
 
-def run_groups(ctx, pid, groups, tag, jobs=16, sig_prefix=None, lines_per_file=None):
+NOGEN = {"chk": False, "y1": 0, "w1": False, "x1": False, "y0": 0, "w0": False, "x0": False}
+
+
+def observe_gen(dobj, d, pk):
+    """The packet alone through packet_generator with parse_bad_pkts True / False: items, length warning, exception."""
+    import warnings
+    g = {"chk": True}
+    for mode, flag in (("1", True), ("0", False)):
+        y, x = 0, False
+        with warnings.catch_warnings(record=True) as w:
+            warnings.simplefilter("always")
+            try:
+                for _ in dobj.packet_generator(bytes(pk), parse_bad_pkts=flag, root_container_name=d["root"]):
+                    y += 1
+                    if y > 3:
+                        break
+            except Exception:  # noqa: BLE001
+                x = True
+        g["y" + mode] = y
+        g["x" + mode] = x
+        g["w" + mode] = any("did not match the length of data available" in str(m.message) for m in w)
+    return g
+
+
+def run_groups(ctx, pid, groups, tag, jobs=16, sig_prefix=None, lines_per_file=None, gen_level=False, collect=None):
     """groups: list of dict(defn=..., pkts=[bytes-lists], route=..., label=...).  Each group is one definition built through
     one route and many packets.  Returns dict with counts per model status."""
     sig_prefix = sig_prefix or pid
@@ -22,6 +46,7 @@ def run_groups(ctx, pid, groups, tag, jobs=16, sig_prefix=None, lines_per_file=N
         obs = []
         for pk in g["pkts"]:
             o = xdoc.observe_packet(dobj, g["defn"], pk)
+            o["gen"] = observe_gen(dobj, g["defn"], pk) if gen_level else NOGEN
             obs.append(o)
         lines.append({"defn": g["defn"], "pkts": [list(p) for p in g["pkts"]], "obs": obs, "route": list(g["route"]), "label": g.get("label", "")})
     if not lines:
@@ -34,7 +59,7 @@ def run_groups(ctx, pid, groups, tag, jobs=16, sig_prefix=None, lines_per_file=N
     def one(a):
         off, part = a
         path = os.path.join(ctx.work, f"{tag}-{off}.ndjson")
-        slim = [{"defn": ln["defn"], "pkts": ln["pkts"], "obs": [{k: o[k] for k in ("outcome", "items", "pos", "hdrn", "udn")} for o in ln["obs"]]}
+        slim = [{"defn": ln["defn"], "pkts": ln["pkts"], "obs": [{k: o[k] for k in ("outcome", "items", "pos", "hdrn", "udn", "gen")} for o in ln["obs"]]}
                 for ln in part]
         core.write_ndjson(path, slim)
         r = ctx.tlc("Trace_Decode", "Trace_Decode.cfg", workers=1, env={"TRACE_FILE": path}, tag=f"{tag}@{off}", heap="4g")
@@ -56,12 +81,14 @@ def run_groups(ctx, pid, groups, tag, jobs=16, sig_prefix=None, lines_per_file=N
             stats[status] = stats.get(status, 0) + 1
             ctx.traces += 1
             ctx.count((tag, ln["label"], tuple(ln["route"]), json.dumps(ln["defn"], sort_keys=True), bytes(ln["pkts"][pi])))
-            ctx.tally(f"{tag}_status_{status}")
+            ctx.tally(f"{tag}_status_{status}" + ("" if status != "ok" else ("_exact" if v[7] else "_inexact")))
+            if collect is not None:
+                collect.append((ln, pi, status, v[7]))
             if v[0] == "REJECT":
                 o = ln["obs"][pi]
                 ctx.violation(f"{sig_prefix}/{clause}/{ln['route'][0]}",
                               f"{clause}: model status {status} pos {v[5]}; real outcome {o['outcome']} pos {o['pos']} "
-                              f"items {[(i['name'], i['val']) for i in o['items']][:8]} {o.get('note', '')}; model mapping {v[6][:400]}",
+                              f"items {[(i['name'], i['val']) for i in o['items']][:8]} {o.get('note', '')} gen {o['gen']}; model mapping {v[6][:400]}",
                               {"defn": ln["defn"], "pkt": ln["pkts"][pi], "route": ln["route"], "label": ln["label"]})
         want = sum(len(ln["pkts"]) for ln in part)
         if seen != want:
